@@ -115,4 +115,18 @@ qubit is terminal in one copy and not in two -/
 example : allTerm (fun (o : Nat × Bool) => [o.1]) (·.2) (rep 1 [(0, false), (0, true)]) [] = true ∧
     allTerm (fun (o : Nat × Bool) => [o.1]) (·.2) (rep 2 [(0, false), (0, true)]) [] = false := by decide
 
+/-! ### record shapes: a key recorded by a repeated body has one instance per repetition and occurrence -/
+
+theorem instances_append {κ : Type} [BEq κ] (keyOf : α → Option κ) (k : κ) (a b : List α) :
+    instances keyOf k (a ++ b) = instances keyOf k a + instances keyOf k b := by
+  simp [instances, List.filter_append]
+
+/-- **a body repeated `n` times records each of its keys `n` times as often** (what `Sampler._get_measurement_shapes`
+has to report for a sub-circuit operation without repetition ids) -/
+theorem C12_instances_repeated (κ : Type) [BEq κ] (keyOf : α → Option κ) (k : κ) (b : List α) (n : Nat) :
+    instances keyOf k (rep n b) = n * instances keyOf k b := by
+  induction n with
+  | zero => simp [rep, instances]
+  | succ n ih => rw [rep, instances_append, ih, Nat.succ_mul, Nat.add_comm]
+
 end CirqVerif.C12
